@@ -26,6 +26,9 @@ type Round struct {
 	// Late submitters keep submitting while the waiter is already inside Wait:
 	// Wait must still cover every task whose Submit had returned before Wait was called.
 	Late [][]Task `json:"late,omitempty"`
+	// Waiters: additional goroutines that call Wait at the same time as the main
+	// waiter; Wait is a barrier for every one of them.
+	Waiters int `json:"waiters,omitempty"`
 }
 
 type Scn struct {
@@ -94,6 +97,9 @@ func gen(prop, tier string, r *rand.Rand, idx int) any {
 			}
 			rd.Subs = append(rd.Subs, ts)
 		}
+		if r.IntN(4) == 0 {
+			rd.Waiters = 1 + r.IntN(2)
+		}
 		if sc.Mode != "barrier" && r.IntN(3) == 0 {
 			nl := 1 + r.IntN(2)
 			for s := 0; s < nl; s++ {
@@ -151,6 +157,11 @@ func shrinkCands(x any) []any {
 		out = append(out, c)
 	}
 	for i, rd := range sc.Rounds {
+		if rd.Waiters > 0 {
+			c := clone(sc)
+			c.Rounds[i].Waiters--
+			out = append(out, c)
+		}
 		for s := range rd.Late {
 			c := clone(sc)
 			c.Rounds[i].Late = append(c.Rounds[i].Late[:s], c.Rounds[i].Late[s+1:]...)
@@ -310,9 +321,20 @@ func run(t *testing.T, prop string, x any, cfg simrt.Config) *eng.Outcome {
 					submitAll(100+si, ts)
 				})
 			}
+			var waitJoin simsync.WaitGroup
+			for w := 1; w <= rd.Waiters; w++ {
+				waitJoin.Add(1)
+				simrt.Go("waiter", func() {
+					defer waitJoin.Done()
+					simrt.Emit(simrt.Event{Kind: "wait_called", N: ri, V: w})
+					pool.Wait()
+					simrt.Emit(simrt.Event{Kind: "wait_returned", N: ri, V: w})
+				})
+			}
 			simrt.Emit(simrt.Event{Kind: "wait_called", N: ri})
 			pool.Wait()
 			simrt.Emit(simrt.Event{Kind: "wait_returned", N: ri})
+			waitJoin.Wait()
 			if len(rd.Late) > 0 {
 				lateJoin.Wait()
 				pool.Wait()
@@ -336,7 +358,7 @@ func oracle(prop string, sc *Scn, eff, total int, roundOf map[int]int, late map[
 	endSeq := map[int]int{}
 	inflight, maxIn := 0, 0
 	submitted := map[int]bool{}
-	covered := map[int]bool{}
+	coveredBy := map[[2]int]map[int]bool{} // (round, waiter) -> tasks whose Submit had returned when that waiter called Wait
 	openSubmits := 0
 	closed := false
 	var over *eng.Violation
@@ -365,19 +387,20 @@ func oracle(prop string, sc *Scn, eff, total int, roundOf map[int]int, late map[
 			openSubmits--
 			submitted[e.I] = true
 		case "wait_called":
-			covered = map[int]bool{}
+			cov := map[int]bool{}
 			for id := range submitted {
-				covered[id] = true
+				cov[id] = true
 			}
+			coveredBy[[2]int{e.N, e.V}] = cov
 		case "wait_returned", "wait_quiesced":
 			for id, r := range roundOf {
 				if r > e.N || barrier != nil || ends[id] > 0 {
 					continue
 				}
-				if e.Kind == "wait_returned" && !covered[id] {
+				if e.Kind == "wait_returned" && !coveredBy[[2]int{e.N, e.V}][id] {
 					continue // submitted concurrently with this Wait: may or may not be covered
 				}
-				barrier = viol("barrier", "Wait of round %d returned at seq %d before task %d (round %d), whose Submit had returned before Wait was called, finished", e.N, e.Seq, id, r)
+				barrier = viol("barrier", "Wait of round %d (waiter %d) returned at seq %d before task %d (round %d), whose Submit had returned before that Wait was called, finished", e.N, e.V, e.Seq, id, r)
 			}
 		case "closed":
 			closed = true
